@@ -11,7 +11,9 @@ META = {
     "text": "Theorems in coq/Properties_C06.v: sender and receiver cut every index list into the same message rounds; in every "
             "state that any schedule of completion events can reach and in which no event is enabled, every process has returned and "
             "the scatter log is exactly the gathered entries of the peer (count, order, items); every event decreases a measure, so every "
-            "schedule terminates.  For the code as it is in the tree this is refuted for a non-empty interface whose sizes are all "
+            "schedule terminates; in the fixed-size protocol every scatter call, in every reachable state and without any precondition, is told the "
+            "size the SENDING peer announced, whatever the receiver's own handle.size() is (C06_fixed_count_is_announced, "
+            "C06_receiver_own_size_irrelevant).  For the code as it is in the tree this is refuted for a non-empty interface whose sizes are all "
             "zero (F-C06-1, witness in the development, reproduced on the real code) and proved under the guard; for the code after "
             "fixes/C06-1.patch it is proved without guard.  The model is tied to variablesizecommunicator.hh on every run by an MPI harness "
             "with a recording handle over generated interface maps, sizes, buffer sizes, directions and seeded completion orders.",
@@ -32,7 +34,7 @@ MACRO_BUF = 5           # the second impl binary is compiled with -DDUNE_PARALLE
 API = {0: "ctor(MPI_Comm,map,size)", 1: "ctor(MPI_Comm,map)", 2: "ctor(Interface,size)", 3: "ctor(Interface)", 4: "copy-ctor",
        5: "copy-assign+self-assign", 6: "object reused", 7: "non-default Allocator", 8: "original used after its copy",
        9: "source used after assignment", 10: "construct from std::move", 11: "std::swap", 12: "map rebuilt between calls",
-       13: "object reused with other handle kind/DataType"}
+       13: "object reused with other handle kind/DataType", 14: "object reused with same-kind handles of other sizes"}
 DTYPE = {0: "long", 1: "double", 2: "int", 3: "POD struct (generic MPITraits)", 4: "std::pair<int,double>", 5: "long double",
          6: "std::complex<double>", 7: "FieldVector<double,2>"}
 COMMKIND = {0: "split, world order", 1: "split, reversed ranks", 2: "split, rotated ranks", 3: "dup of split", 4: "MPI_COMM_SELF"}
@@ -93,7 +95,88 @@ def features(c):
     if any(len(set(x)) < len(x) for (_, _, a, b) in c["entries"] for x in (a, b)): f.add("repeated-index")
     if any(c["buf"] in z for _, _, z in ls): f.add("size==buf")
     if not ls: f.add("no-interface")
+    if c["mode"] == 0:
+        d, sz = c["dir"], c["sizes"]
+        ent = {(p, q): (fi, se) for (p, q, fi, se) in c["entries"]}
+        for (p, q), (fi, se) in ent.items():
+            sl = se if d else fi
+            if not sl or (q, p) not in ent: continue
+            fs = sz[p][sl[0]]
+            rl = ent[(q, p)][0] if d else ent[(q, p)][1]          # q's receive list for p
+            qs = ent[(q, p)][1] if d else ent[(q, p)][0]          # q's send list for p
+            if p != q and any(sz[q][i] != fs for i in rl): f.add("fixed:receiver-own-size-differs")
+            if p != q and any(sz[q][i] < fs for i in rl): f.add("fixed:receiver-own-size-smaller")
+            if p != q and any(sz[q][i] > fs for i in rl): f.add("fixed:receiver-own-size-larger")
+            if p != q and any(sz[q][i] == 0 for i in rl): f.add("fixed:receiver-own-size-zero")
+            if qs and sz[q][qs[0]] != fs: f.add("fixed:two-directions-announce-different-sizes")
+        for p in range(c["P"]):
+            fs = set(sz[p][(se if d else fi)[0]] for (pp, q), (fi, se) in ent.items() if pp == p and (se if d else fi))
+            if len(fs) > 1: f.add("fixed:size-differs-per-neighbour")
     return f
+
+
+def fixed_sizes(rng, P, NI, entries, d, top):
+    """Sizes of a fixed-size handle inside the precondition (c06_case_ok_fixed): every send list of a rank is homogeneous
+    with a size in 1..buf.  What is NOT constrained is varied: the size differs from rank to rank ('rank'), from neighbour to
+    neighbour of one rank ('link': one size per connected component of the rank's send lists), indices a rank never sends
+    get arbitrary sizes (0, > buf), ranks that only receive report 0 or garbage."""
+    alpha = sorted(set(x for x in [1, 2, 3, top - 1, top] if 1 <= x <= top))
+    style = rng.choice(["uniform", "rank", "rank", "rank", "link", "link"])
+    if style == "uniform":
+        F = min(top, rng.choice([1, 1, 2, 3, max(1, top - 1), top]))
+        return [[F] * NI for _ in range(P)]
+    junk = [0, 0] + alpha + ([top + 1] if top + 1 < W else [])
+    sizes = []
+    Fp = [rng.choice(alpha) for _ in range(P)]
+    if P >= 2 and len(alpha) >= 2 and len(set(Fp)) == 1:
+        k = rng.randrange(P)
+        Fp[k] = rng.choice([x for x in alpha if x != Fp[k]])
+    for p in range(P):
+        sls = [(s if d else f) for (pp, q, f, s) in entries if pp == p]
+        sent = set(i for sl in sls for i in sl)
+        if style == "rank":
+            row = [Fp[p]] * NI
+        else:
+            comp = list(range(NI))
+            def find(i):
+                while comp[i] != i: i = comp[i]
+                return i
+            for sl in sls:
+                for i in sl[1:]: comp[find(i)] = find(sl[0])
+            csz = {}
+            row = []
+            for i in range(NI):
+                r = find(i)
+                if r not in csz: csz[r] = rng.choice(alpha)
+                row.append(csz[r])
+        if rng.random() < (0.6 if not sent else 0.35):       # indices never sent: anything goes (receiver's own count at a receive index)
+            row = [row[i] if i in sent else rng.choice(junk) for i in range(NI)]
+        if not sent and rng.random() < 0.4:
+            row = [0] * NI                                    # a pure receiver whose handle reports 0 everywhere
+        sizes.append(row)
+    return sizes
+
+
+def fixed_size_cases(rng):
+    """Boundary-directed: two/three ranks, fixed-size handle whose size differs between the two ends of a link, in every order
+    (smaller/larger/0/1/buf on the receiver), one and many rounds, both directions, a few API paths incl. object reuse."""
+    cs = []
+    def seed(): return rng.randrange(1, 1 << 30)
+    two = [(0, 1, [0, 1, 2, 1], [2, 0]), (1, 0, [1, 2], [2, 1, 0, 0])]
+    for (a, b, buf) in [(2, 3, 7), (3, 2, 7), (1, 5, 5), (5, 1, 5), (2, 3, 3), (3, 2, 3), (4, 1, 4), (1, 4, 9)]:
+        for d in (0, 1):
+            cs.append(fmt_case(2, 0, d, buf, seed(), 3, two, [[a] * 3, [b] * 3], rng.choice([0, 0, 2, 4, 6, 14]), rng.randrange(8), 0, rng.choice([0, 1, 3]), 0, 0))
+    # a pure receiver reporting 0 (rank 1 forward / rank 0 backward), receiver reporting more than the buffer holds
+    one = [(0, 1, [0, 1, 2], []), (1, 0, [], [2, 2, 0])]
+    cs.append(fmt_case(2, 0, 0, 4, seed(), 3, one, [[2, 2, 2], [0, 0, 0]], 0, 0, 0))
+    cs.append(fmt_case(2, 0, 0, 4, seed(), 3, one, [[3, 3, 3], [5, 0, 9]], 14, 1, 0))
+    cs.append(fmt_case(2, 0, 1, 4, seed(), 3, [(0, 1, [], [0, 1, 2]), (1, 0, [2, 2, 0], [])], [[4, 4, 4], [0, 1, 0]], 6, 2, 0))
+    # three ranks: rank 0 announces 2 to rank 1 and 3 to rank 2 (per neighbour), 1 and 2 answer with 1 resp. 4; self link on 1
+    three = [(0, 1, [0, 0], [1]), (0, 2, [1, 2, 1], [2]), (1, 0, [0], [1, 0]), (1, 1, [0, 1], [1, 1]), (2, 0, [2], [0, 1, 2])]
+    for d, sz in ((0, [[2, 3, 3], [1, 1, 0], [7, 0, 4]]), (1, [[0, 1, 4], [1, 1, 9], [3, 3, 3]])):
+        for buf in (4, 5, 9):
+            cs.append(fmt_case(3, 0, d, buf, seed(), 3, three, sz, rng.choice([0, 14, 6]), 0, 0))
+    return cs
 
 
 def gen_one(rng, maxP, allow_allzero, force_allzero=False, mb=0):
@@ -103,7 +186,7 @@ def gen_one(rng, maxP, allow_allzero, force_allzero=False, mb=0):
     d = rng.choice([0, 1])
     NI = rng.choice([1, 2, 3, 4, 6])
     buf = rng.choice([1, 2, 3, 4, 5, 7, 8, 16, 40, 32768])
-    v = 0 if rng.random() < 0.35 else rng.randrange(14)
+    v = 0 if rng.random() < 0.35 else rng.randrange(15)
     dt = 0 if rng.random() < 0.25 else rng.randrange(8)
     ck = 0 if rng.random() < 0.3 else rng.choice([1, 1, 2, 3, 4])
     if ck == 4 and P != 1: ck = 1
@@ -137,8 +220,7 @@ def gen_one(rng, maxP, allow_allzero, force_allzero=False, mb=0):
     entries = [(p, q, ent[(p, q)][0], ent[(p, q)][1]) for (p, q) in sorted(ent)]
     top = min(buf, W - 1)
     if mode == 0:
-        F = min(top, rng.choice([1, 1, 2, 3, max(1, top - 1), top]))
-        sizes = [[F] * NI for _ in range(P)]
+        sizes = fixed_sizes(rng, P, NI, entries, d, top)
     else:
         alpha = sorted(set(x for x in [0, 0, 1, 2, 3, top - 1, top] if 0 <= x <= top))
         if rng.random() < 0.25:
@@ -254,12 +336,16 @@ def oracle(case_line, impl_line, spec):
         big = [int(x) for mm in re.finditer(r" \d+>\d+:([\d.]+)", deep) for x in mm.group(1).split(".") if int(x) > lim]
         if big:
             return "a message of %d items exceeds the configured maximum buffer size %d" % (max(big), lim)
+    counts = lambda x: re.findall(r" (\d+>\d+:\d+):", " " + x)
+    if pub != spec and counts(pub) != counts(spec):
+        return ("a scatter call was told a wrong item count (or index): calls (src>index:count) %s, the peers gathered %s"
+                % (" ".join(counts(pub))[:300], " ".join(counts(spec))[:300]))
     if pub != spec:
         return "scatter calls differ from what the peers gathered (lost/duplicated/misattributed item or wrong count)"
     return None
 
 
-def sig_of(c, impl_line):
+def sig_of(c, impl_line, spec=None):
     mode = "var" if c["mode"] == 1 else "fixed"
     if is_hang(impl_line):
         return "C06:hang:%s%s" % (mode, "-allzero" if has_allzero(c) else "")
@@ -268,6 +354,8 @@ def sig_of(c, impl_line):
     if oracle(None, impl_line, impl_line.split(" ||")[0]) is None and " ||" in impl_line and \
        any(int(x) > c["buf"] for mm in re.finditer(r" \d+>\d+:([\d.]+)", impl_line.split(" ||")[1]) for x in mm.group(1).split(".")):
         return "C06:buffer-exceeded:%s" % mode
+    if spec is not None and re.findall(r" (\d+>\d+:\d+):", " " + impl_line.split(" ||")[0]) != re.findall(r" (\d+>\d+:\d+):", " " + spec):
+        return "C06:count:%s" % mode
     return "C06:delivery:%s" % mode
 
 
@@ -366,7 +454,8 @@ def run(ctx):
 
     # ---- stage 2: generated cases
     N = 1400 if quick else 8000
-    cases = list(others)
+    fcases = fixed_size_cases(ctx.rng("fixedsizes"))       # fixed sizes differing between the ends of a link: always run, first
+    cases = list(others) + fcases
     for n in range(N):
         force = (not tree_hangs_on_allzero) and rng.random() < 0.12
         cases.append(gen_one(rng, NP, allow_allzero=not tree_hangs_on_allzero, force_allzero=force))
@@ -451,11 +540,11 @@ def run(ctx):
         reason = oracle(c, a, spec)
         if reason is not None:
             nviol += 1
-            sg = sig_of(pc, a)
+            sg = sig_of(pc, a, spec)
             per_sig[sg] = per_sig.get(sg, 0) + 1
             if per_sig[sg] <= 3:
                 sh = lambda x: x if len(x) < 4000 else x[:2000] + " ...[%d chars]... " % len(x) + x[-500:]
-                ctx.violation(sig_of(pc, a), {"case": c, "parsed": pc, "impl": sh(a), "model_tree_code": sh(cur), "model_fixed_code": sh(new), "spec": sh(spec),
+                ctx.violation(sg, {"case": c, "parsed": pc, "impl": sh(a), "model_tree_code": sh(cur), "model_fixed_code": sh(new), "spec": sh(spec),
                                               "oracle": reason, "replay_cmd": "bin/check C06 --replay <this file>"})
         # correspondence: the tree must behave as one of the two model variants
         def same(x):
@@ -484,7 +573,8 @@ def run(ctx):
         "evaluations": len(cases), "distinct_nontrivial": len(nontrivial),
         "rule": "cases = corpus (F-C06-1 witnesses first) + seeded random cases: P in 1..%d ranks, symmetric random relation incl. self entries, "
                 "empty lists and ranks without interface, index lists of length 0..9 with repeated indices over 1..6 local indices, fixed-size and "
-                "variable-size recording handle, sizes from {0,1,2,3,buf-1,buf}, buffer sizes {1,2,3,4,5,7,8,16,40,32768}, forward and backward, "
+                "variable-size recording handle, sizes from {0,1,2,3,buf-1,buf} (fixed-size handles: the same size everywhere, one size per rank, or one size per "
+                "neighbour of a rank, from {1,2,3,buf-1,buf}; indices a rank never sends and ranks that only receive report 0 / more than the buffer), buffer sizes {1,2,3,4,5,7,8,16,40,32768}, forward and backward, "
                 "PMPI-perturbed completion order from the case seed; every public construction path (4 constructors, copy construction, copy/self assignment, "
                 "object reuse, non-default Allocator; a second binary with DUNE_PARALLEL_MAX_COMMUNICATION_BUFFER_SIZE=%d) and 5 handle DataTypes; non-trivial = at least one item is communicated; distinct = distinct case lines. "
                 "While the tree hangs on all-zero interfaces (F-C06-1 open) only the corpus witnesses exercise them." % (NP, MACRO_BUF),
@@ -494,7 +584,7 @@ def run(ctx):
         "tree_matches_model_variant": variant, "discriminating_cases": discriminating,
         "pmpi_shim": {"perturbed_sweeps": shim[0], "calls_reporting_out_of_index_order": shim[1], "delays": shim[2]},
         "traces_validated_against_impl": sum(1 for a in io if not (a.startswith("NOT-RUN") or a.startswith("CRASH") or a.startswith("SKIPPED"))),
-        "special_member_big_buffer_cases": len(scases), "default_buffer_from_source": default_buffer(),
+        "special_member_big_buffer_cases": len(scases), "fixed_size_differs_directed_cases": len(fcases), "default_buffer_from_source": default_buffer(),
         "exhaustive": False,
     })
     ctx.assumptions += ["MPI point-to-point semantics as modelled (per-pair FIFO matching on the private communicator, Issend completes after the matching receive is posted)",
